@@ -12,6 +12,7 @@ class Ctx:
         self.enums = enums                 # enum name -> [variants]
         self.decls = {}                    # smt name -> declaration text
         self.consts = {}
+        self.sym_sorts = {}                # symbol name -> sort, fixed before anything is translated
 
     def sort_of_rust(self, ty):
         ty = (ty or "").strip()
@@ -56,7 +57,9 @@ class Ctx:
                 return f"((_ to_fp 11 53) RNE {m.group(1)})", "F"
             return self.sym("const_" + c, want or "V"), want or "V"
         if k == "sym":
-            return self.sym(t[1], want or "V"), want or "V"
+            so = self.sym_sorts.get(t[1], want or "V")
+            self.sym_sorts.setdefault(t[1], so)
+            return self.sym(t[1], so), so
         if k == "variant":
             vs = self.enums.get(t[1])
             if vs and t[2] in vs:
@@ -82,6 +85,11 @@ class Ctx:
         if k == "some":
             b, bs = self.tr(t[1])
             return f"({self.uf('Some', [bs], 'V')} {b})", "V"
+        if k == "un":
+            a, sa = self.tr(t[2], want)
+            if t[1] == "Neg":
+                return (f"(fp.neg {a})", "F") if sa == "F" else (f"(- {a})", "Int")
+            return f"(not {a})", "Bool"
         if k == "op":
             a, sa = self.tr(t[2])
             b, sb = self.tr(t[3], sa)
